@@ -47,7 +47,8 @@ def cases(shard, tier):
         if dt in ("int64", "float64"):
             # the same object asked repeatedly, contiguous and as a selection nothing has read yet (a read materialises it on the way)
             yield [lens, dt, 0, "seq_contig"]
-            yield [lens, dt, 0, "seq_view"]
+            for vk in VIEW_KINDS:
+                yield [lens, dt, 0, "seq_view" + vk]
 
 
 def check(case, acc):
@@ -128,15 +129,41 @@ def check(case, acc):
         acc.fail("operand-modified", rows, post)
 
 
+VIEW_KINDS = ["", "_perm", "_colrev", "_colstep"]
+
+
+def _pending_view(kind, rows, dt):
+    """the rows as a selection nothing has read yet, stored differently in the parent: reversed row order + an extra row; rows permuted
+    with the first and last in place; every row reversed (read back with [:, ::-1]); junk in every other column (read back with [:, ::2])"""
+    from npstructures import RaggedArray
+    mk = lambda rs: RaggedArray(np.array([v for r in rs for v in r], dtype=dt), [len(r) for r in rs])
+    n = len(rows)
+    if kind == "":
+        big = mk([[7]] + rows[::-1])
+        int(big.size)          # the parent has been asked its size (memoised) before the selection is taken
+        return big[:0:-1]
+    if kind == "_perm":
+        order = list(range(n))
+        if n >= 4:
+            order[1], order[2] = order[2], order[1]        # first and last rows stay where they are
+        else:
+            order = order[::-1]
+        big = mk([rows[i] for i in order])
+        inv = [order.index(i) for i in range(n)]
+        return big[inv]
+    if kind == "_colrev":
+        return mk([r[::-1] for r in rows])[:, ::-1]
+    big = mk([[x for v in r for x in (v, 7)] for r in rows])
+    return big[:, ::2]
+
+
 def _check_seq(acc, case, flat, rows, cols, ra):
     from npstructures import RaggedArray
     lens, dt, k, op = case
     acc.feature("same_object_sequence")
-    if op == "seq_view":
-        back = [[7]] + rows[::-1]
-        big = RaggedArray(np.array([v for r in back for v in r], dtype=dt), [len(r) for r in back])
-        int(big.size)          # the parent has been asked its size (memoised) before the selection is taken
-        ra = big[:0:-1]
+    vkind = op[len("seq_view"):] if op.startswith("seq_view") else None
+    if vkind is not None:
+        ra = _pending_view(vkind, rows, dt)
     m = len(cols)
     colv = lambda j: ("A", (len(cols[j]),), tuple(pyval(x) for x in cols[j]))
     sums = ("A", (m,), tuple(pyval(sum(c)) for c in cols))
@@ -150,7 +177,7 @@ def _check_seq(acc, case, flat, rows, cols, ra):
     means = ("A", (m,), tuple(pyval(sum(c)) / len(c) for c in cols))
     if dt == "int64":
         # exact in float64 for these small integers; the FIRST thing asked of a second, equal object
-        ra2 = big[:0:-1] if op == "seq_view" else RaggedArray(flat.copy(), list(lens))
+        ra2 = _pending_view(vkind, rows, dt) if vkind is not None else RaggedArray(flat.copy(), list(lens))
         steps = [("mean0 first", lambda: ra2.mean(axis=0), means), ("col_counts after mean", lambda: ra2.col_counts(), counts)] + steps + \
                 [("mean0", lambda: ra.mean(axis=0), means)]
     for name, f, exp in steps:
